@@ -97,17 +97,15 @@ def Cache.put (c : Cache) (n : Node) (s : St) : Cache := (n, s) :: c
     `fuel ≥ b.length` always suffices. -/
 def walkBack (net : Net) (d : Dep) : Nat → Cache → Node → List Node → Cache × St × List Node
   | 0, c, _, needed => (c, .defined, needed)
-  | fuel + 1, c, b, needed =>
-    match b with
-    | [] => (c, .defined, needed)
-    | _ =>
-      match c.get b with
-      | some st => (c, st, needed)
-      | none =>
-        if !hasStarted d b then
-          let st := if !isSpeedy d && hasEnded d b then St.failed else St.defined
-          (c.put b st, st, needed)
-        else walkBack net d fuel c (b.drop net.window) (b :: needed)
+  | _ + 1, c, [], needed => (c, .defined, needed)
+  | fuel + 1, c, h :: t, needed =>
+    match c.get (h :: t) with
+    | some st => (c, st, needed)
+    | none =>
+      if !hasStarted d (h :: t) then
+        let st := if !isSpeedy d && hasEnded d (h :: t) then St.failed else St.defined
+        (c.put (h :: t) st, st, needed)
+      else walkBack net d fuel c ((h :: t).drop net.window) ((h :: t) :: needed)
 
 /-- the walk forward: apply the transition per remembered boundary, caching each result. -/
 def walkForward (net : Net) (d : Dep) : Cache → St → List Node → Cache × Option St
@@ -138,6 +136,42 @@ def calcNextBlockVersion (net : Net) : List (Dep × Cache) → Node → Nat → 
       let v' := if st = .started ∨ st = .lockedIn then v ||| mask d.bit else v
       let (rest', r) := calcNextBlockVersion net rest n v'
       ((d, c') :: rest', r)
+
+/-! ### a chain instance: one cache per deployment, queried in any order -/
+abbrev ChainSt := List (Dep × Cache)
+
+def ansOf : Option St → Spec.Answer
+  | some s => .st s
+  | none => .panic
+
+/-- `deploymentState(n, id)` on the instance: picks deployment `id` and ITS cache. -/
+def stateAt (net : Net) : ChainSt → Nat → Node → ChainSt × Spec.Answer
+  | [], _, _ => ([], .unknownId)
+  | (d, c) :: rest, 0, n =>
+    match thresholdState net d c n with
+    | (c', r) => ((d, c') :: rest, ansOf r)
+  | dc :: rest, id + 1, n =>
+    match stateAt net rest id n with
+    | (rest', a) => (dc :: rest', a)
+
+def runQuery (net : Net) (cs : ChainSt) : Spec.Query → ChainSt × Spec.Answer
+  | .state id n => stateAt net cs id n
+  | .version n =>
+    match calcNextBlockVersion net cs n VB_TOP_BITS with
+    | (cs', some v) => (cs', .ver v)
+    | (cs', none) => (cs', .panic)
+
+/-- a whole history of queries on one instance; answers in order. -/
+def runQueries (net : Net) : ChainSt → List Spec.Query → ChainSt × List Spec.Answer
+  | cs, [] => (cs, [])
+  | cs, q :: qs =>
+    match runQuery net cs q with
+    | (cs', a) =>
+      match runQueries net cs' qs with
+      | (cs'', as) => (cs'', a :: as)
+
+/-- a fresh instance: empty caches. -/
+def fresh (deps : List Dep) : ChainSt := deps.map (fun d => (d, []))
 
 end Model
 end BV.C14
